@@ -6,6 +6,7 @@ import (
 	"bytes"
 	"fmt"
 	"math/big"
+	"math/bits"
 	"testing"
 
 	"pgregory.net/rapid"
@@ -246,6 +247,20 @@ func propDouble(t *rapid.T) {
 	if got := rcv.UncompressedBytes(); !bytes.Equal(got, want.Uncompressed()) {
 		t.Fatalf("DoubleScalarMultBasepointVartime(%x,%x,%v) [%s]: got %x want %v", u1, u2, p, rel, got, want)
 	}
+	// hooks only: the next call gets a different group element whose raw X and Y are this P's affine x and y
+	// (state keyed on part of a representation would take it for P)
+	if !alias && !p.Inf {
+		if g, q, ok := sibling(p, rapid.Bool().Draw(t, "sib-root")); ok {
+			v1, v2 := gen.Int256(t, ref.N, "v1"), gen.Int256(t, ref.N, "v2")
+			got := secp256k1.NewIdentityPoint().DoubleScalarMultBasepointVartime(lib.Sc(v1), lib.Sc(v2), g)
+			if want2 := ref.BaseMul(v1).Add(q.Mul(v2)); !bytes.Equal(got.UncompressedBytes(), want2.Uncompressed()) {
+				t.Fatalf("DoubleScalarMultBasepointVartime(%x,%x,Q) right after a call on P=%v, Q=%v given as (x(P), y(P), Z'): got %x want %v", v1, v2, p, q, got.UncompressedBytes(), want2)
+			}
+			stat.Case("double", []string{"follow-up:sibling-representative"}, true, []byte(fmt.Sprintf("sib|%x|%x|%x", v1, v2, q.Compressed())), func() any {
+				return map[string]any{"first_P": p.String(), "then_Q": q.String(), "v1": v1.Text(16), "v2": v2.Text(16)}
+			})
+		}
+	}
 	// agrees with the two multi-scalar variants
 	for _, vt := range []bool{false, true} {
 		sc := []*secp256k1.Scalar{lib.Sc(u1), lib.Sc(u2)}
@@ -272,7 +287,31 @@ func TestC16_Double(t *testing.T) { rapid.Check(t, propDouble) }
 // may alias an entry anywhere in the list, including its tail; some entries
 // are repeated pointers, identity points or zero scalars.
 func propLong(t *rapid.T) {
-	n := gen.Sampled([]int{16, 17, 31, 32, 33, 63, 64, 65, 127, 128, 129, 200, 255, 256, 257, 258, 300, 511, 512, 513}).Draw(t, "len")
+	longCase(t, "long", gen.Sampled([]int{16, 17, 31, 32, 33, 63, 64, 65, 127, 128, 129, 200, 255, 256, 257, 258, 300, 511, 512, 513}).Draw(t, "len"))
+}
+
+// propVeryLong: one length on, next to and inside every power-of-two tier up
+// to 2^14 terms -- where a bucket method would pick its window width from the
+// list length, every tier is a different code path, and each is visited.
+func propVeryLong(t *rapid.T) {
+	k := uint(rapid.IntRange(9, 13).Draw(t, "tier"))
+	n := 1 << k
+	switch rapid.IntRange(0, 3).Draw(t, "where") {
+	case 0:
+		n += 1<<k - 1 // 2^(k+1) - 1
+	case 1:
+		n = 1 << (k + 1)
+	case 2:
+		n += 1 + 1<<k // 2^(k+1) + 1
+	default:
+		n += rapid.IntRange(1, 1<<k-2).Draw(t, "inside")
+	}
+	longCase(t, "very-long", n)
+}
+
+func TestC16_VeryLong(t *testing.T) { rapid.Check(t, propVeryLong) }
+
+func longCase(t *rapid.T, sub string, n int) {
 	k := gen.NonZero256(t, ref.N, "k")
 	step := ref.G()
 	if rapid.Bool().Draw(t, "step-neg") {
@@ -335,7 +374,11 @@ func propLong(t *rapid.T) {
 	default:
 		rcv = secp256k1.NewGeneratorPoint()
 	}
-	stat.Case("long", []string{fmt.Sprintf("len:%d", n), "rcv:" + rk, fmt.Sprintf("vartime:%v", vartime)}, rIdx >= 0 || special > 0,
+	lenClass := fmt.Sprintf("len:%d", n)
+	if n > 513 {
+		lenClass = fmt.Sprintf("len-tier:2^%d", bits.Len(uint(n))-1)
+	}
+	stat.Case(sub, []string{lenClass, "rcv:" + rk, fmt.Sprintf("vartime:%v", vartime)}, rIdx >= 0 || special > 0,
 		[]byte(fmt.Sprintf("%d|%x|%s|%d|%v|%x", n, k, rk, rIdx, vartime, acc)), func() any {
 			return map[string]any{"len": n, "k": k.Text(16), "receiver": rk, "receiver_index": rIdx, "vartime": vartime, "repeated_or_zero_terms": special}
 		})
